@@ -462,6 +462,53 @@ def r6(F, R):
     R.floor("C05-R6", 2)
 
 
+def r10(F, R):
+    """The description of a divergence travels with it: no caller of extend() drops the DivergenceInfo of a Diverging outcome."""
+    R.rule("C05-R10", "for every call of NutsTree::extend, the DivergenceInfo payload of the `Diverging` outcome is read on the Diverging arm (moved into the "
+                      "result that is returned / into tree.info(.., Some(info))): a fault met during any doubling - also an extra doubling after a U-turn - "
+                      "is reported with the draw")
+    n = 0
+    for b in sorted(F.bodies.values(), key=lambda x: x.path):
+        if b.kind == "closure":
+            continue
+        for ci, (bb, t) in enumerate(b.calls_to(lambda c: path_ends(c["path"], "NutsTree::extend"))):
+            dl = t["dest"]["l"]
+            if t["dest"]["p"]:
+                continue
+            arm_t = None
+            sw = None
+            for bi in b.reach_from(t["target"]) if t.get("target") is not None else ():
+                tt = b.blocks[bi]["term"]
+                if tt["k"] == "switch" and tt.get("enum_place", {}).get("l") == dl and not tt["enum_place"]["p"]:
+                    arm_t = next((a["target"] for a in tt["arms"] if a.get("name") == "Diverging"), None)
+                    sw = bi
+                    break
+            key = "%s:extend#%d:diverging-info" % (b.path, ci)
+            site = "%s @%s" % (b.path, loc(t["span"]))
+            if arm_t is None:
+                R.bad("C05-R10", key, site, "the result of extend() is not matched with a Diverging arm")
+                continue
+            n += 1
+            reach = b.reach_from(arm_t, avoid=[sw])
+            read = False
+            for bi in reach:
+                for st in b.blocks[bi]["stmts"]:
+                    if st["k"] != "assign":
+                        continue
+                    from .facts import _rvalue_operands
+                    for o in _rvalue_operands(st["rv"]):
+                        if o.get("k") in ("copy", "move") and o["pl"]["l"] == dl:
+                            pr = o["pl"]["p"]
+                            if len(pr) >= 2 and isinstance(pr[0], dict) and pr[0].get("d") == "Diverging" and isinstance(pr[1], dict) and pr[1].get("f") == 1:
+                                read = True
+            if read:
+                R.ok("C05-R10", key, site, "Diverging(_, info): info is moved on")
+            else:
+                R.bad("C05-R10", key, site, "the DivergenceInfo of a Diverging outcome of extend() is never read on its arm: the draw is reported as non-divergent")
+    R.floor("C05-R10", 3)
+
+
+
 def run(F, R, config="all"):
     r1(F, R)
     r2(F, R)
@@ -475,6 +522,7 @@ def run(F, R, config="all"):
     # "in MCLMC with dynamic step size a faulted step is retried with a smaller step": the retry bookkeeping must cover the step budget,
     # otherwise the draw is cut short and `assert!(steps_taken >= num_base_steps)` panics
     from . import c18
+    r10(F, R)
     K.borrow_rule(R, lambda sub: c18.r4(F, sub), "C05-R9", "MCLMC step-size retry after a faulted step: halve on push, double on pop, unwind every finished level "
                   "(decided by the C18-R4 analysis of mclmc_kernel)", only_rules={"C18-R4"})
     R.assume("user-supplied Math implementations may return any error at any call; is_recoverable() is the documented classifier")
